@@ -5,19 +5,20 @@
    Transcribed from db_write.go, db_transaction.go, db_compaction.go, db.go
    AS CODED; the Fix* constants switch individual repairs on. *)
 EXTENDS Naturals, FiniteSets, Sequences, TLC
-CONSTANTS Writers, Faults, FixF3, FixF6, FixF7, FixF8, LargeBatch, WithClose, Sticky
+CONSTANTS Writers, Faults, FixF3, FixF6, FixF7, FixF8, FixF9, LargeBatch, WithClose, Sticky, KComp
 VARIABLES pc, lock, commitLk, trLk, tr, closed, errState, faults, poisoned,
-          frozen, mcmd, result, tries
-vars == <<pc, lock, commitLk, trLk, tr, closed, errState, faults, poisoned, frozen, mcmd, result, tries>>
+          frozen, mcmd, result, tries, kleft
+vars == <<pc, lock, commitLk, trLk, tr, closed, errState, faults, poisoned, frozen, mcmd, result, tries, kleft>>
 \* processes
-T == "T"  M == "M"  C == "C"
+T == "T"  M == "M"  C == "C"  K == "K"   \* K: the table-compaction goroutine (KComp commits; runs at any time, also while a transaction is open)
 Clients == Writers \cup {T}
 NoCmd == [from |-> "none", ack |-> FALSE, st |-> "none"]
 \* mcmd: the (single) outstanding command M is working on; st: "sent" | "acked" | "ackclosed"
 
-Init == /\ pc = [p \in Clients \cup {M, C} |->
+Init == /\ pc = [p \in Clients \cup {M, C, K} |->
                    IF p \in Writers THEN "start" ELSE IF p = T THEN "t_start"
-                   ELSE IF p = M THEN "m_idle" ELSE IF WithClose THEN "c_idle" ELSE "c_off"]
+                   ELSE IF p = M THEN "m_idle" ELSE IF p = K THEN "k_idle" ELSE IF WithClose THEN "c_idle" ELSE "c_off"]
+        /\ kleft = KComp
         /\ lock = "free" /\ commitLk = "free" /\ trLk = "free" /\ tr = FALSE
         /\ closed = FALSE /\ errState = "none" /\ faults = Faults /\ poisoned = FALSE
         /\ frozen = FALSE /\ mcmd = NoCmd
@@ -33,9 +34,9 @@ SendCmd(p, next, onerr) ==
   \/ /\ pc[M] = "m_idle" /\ mcmd = NoCmd
      /\ mcmd' = [from |-> p, ack |-> TRUE, st |-> "sent"]
      /\ pc' = [pc EXCEPT ![M] = "m_run", ![p] = next]
-     /\ UNCHANGED <<result>>
-  \/ /\ errState # "none" /\ Set(p, onerr) /\ UNCHANGED <<mcmd, result>>
-  \/ /\ closed /\ Set(p, onerr) /\ UNCHANGED <<mcmd, result>>
+     /\ UNCHANGED <<result, kleft>>
+  \/ /\ errState # "none" /\ Set(p, onerr) /\ UNCHANGED <<mcmd, result, kleft>>
+  \/ /\ closed /\ Set(p, onerr) /\ UNCHANGED <<mcmd, result, kleft>>
 WaitAck(p, next, onerr) ==
   \/ /\ mcmd.from = p /\ mcmd.st = "acked" /\ mcmd' = NoCmd /\ Set(p, next)
   \/ /\ mcmd.from = p /\ mcmd.st = "ackclosed" /\ mcmd' = NoCmd /\ Set(p, onerr)
@@ -49,17 +50,17 @@ WStart(w) ==
   /\ pc[w] = "start"
   /\ \/ /\ lock = "free" /\ lock' = w /\ Set(w, "w_flush") /\ UNCHANGED result
      \/ /\ closed /\ Set(w, "done") /\ Ret(w, "closed") /\ UNCHANGED lock
-  /\ UNCHANGED <<commitLk, trLk, tr, closed, errState, faults, poisoned, frozen, mcmd, tries>>
+  /\ UNCHANGED <<commitLk, trLk, tr, closed, errState, faults, poisoned, frozen, mcmd, tries, kleft>>
 \* flush(): either room in memdb, or rotateMem: wait pending flush, newMem, trigger
 WFlush(w) ==
   /\ pc[w] = "w_flush"
   /\ \/ Set(w, "w_apply")                       \* room available
      \/ Set(w, "w_rot_send")                    \* needs rotation
-  /\ UNCHANGED <<lock, commitLk, trLk, tr, closed, errState, faults, poisoned, frozen, mcmd, result, tries>>
+  /\ UNCHANGED <<lock, commitLk, trLk, tr, closed, errState, faults, poisoned, frozen, mcmd, result, tries, kleft>>
 WRotSend(w) == /\ pc[w] = "w_rot_send" /\ SendCmd(w, "w_rot_wait", "w_fail")
-               /\ UNCHANGED <<lock, commitLk, trLk, tr, closed, errState, faults, poisoned, frozen, tries>>
+               /\ UNCHANGED <<lock, commitLk, trLk, tr, closed, errState, faults, poisoned, frozen, tries, kleft>>
 WRotWait(w) == /\ pc[w] = "w_rot_wait" /\ WaitAck(w, "w_newmem", "w_fail")
-               /\ UNCHANGED <<lock, commitLk, trLk, tr, closed, errState, faults, poisoned, frozen, result, tries>>
+               /\ UNCHANGED <<lock, commitLk, trLk, tr, closed, errState, faults, poisoned, frozen, result, tries, kleft>>
 WNewMem(w) ==  \* newMem + compTrigger (non-blocking)
   /\ pc[w] = "w_newmem" /\ ~frozen
   /\ frozen' = TRUE
@@ -67,13 +68,13 @@ WNewMem(w) ==  \* newMem + compTrigger (non-blocking)
        THEN /\ mcmd' = [from |-> "nobody", ack |-> FALSE, st |-> "sent"]
             /\ pc' = [pc EXCEPT ![M] = "m_run", ![w] = "w_apply"]
        ELSE /\ Set(w, "w_apply") /\ UNCHANGED mcmd
-  /\ UNCHANGED <<lock, commitLk, trLk, tr, closed, errState, faults, poisoned, result, tries>>
+  /\ UNCHANGED <<lock, commitLk, trLk, tr, closed, errState, faults, poisoned, result, tries, kleft>>
 WApply(w) ==   \* journal + memdb + seq, then unlockWrite
   /\ pc[w] = "w_apply" /\ lock' = "free" /\ Set(w, "done") /\ Ret(w, "ok")
-  /\ UNCHANGED <<commitLk, trLk, tr, closed, errState, faults, poisoned, frozen, mcmd, tries>>
+  /\ UNCHANGED <<commitLk, trLk, tr, closed, errState, faults, poisoned, frozen, mcmd, tries, kleft>>
 WFail(w) ==    \* unlockWrite(false, 0, err)
   /\ pc[w] = "w_fail" /\ lock' = "free" /\ Set(w, "done") /\ Ret(w, "err")
-  /\ UNCHANGED <<commitLk, trLk, tr, closed, errState, faults, poisoned, frozen, mcmd, tries>>
+  /\ UNCHANGED <<commitLk, trLk, tr, closed, errState, faults, poisoned, frozen, mcmd, tries, kleft>>
 
 (* ---------------- memdb compaction goroutine ---------------- *)
 Fault == faults > 0
@@ -82,74 +83,98 @@ MRun ==
   /\ IF frozen THEN Set(M, "m_build") /\ UNCHANGED mcmd
      ELSE /\ mcmd' = IF mcmd.ack /\ mcmd.from \in Clients THEN [mcmd EXCEPT !.st = "acked"] ELSE NoCmd
           /\ Set(M, "m_idle")
-  /\ UNCHANGED <<lock, commitLk, trLk, tr, closed, errState, faults, poisoned, frozen, result, tries>>
+  /\ UNCHANGED <<lock, commitLk, trLk, tr, closed, errState, faults, poisoned, frozen, result, tries, kleft>>
 \* compactionTransact("memdb@flush"): run, report status to the error goroutine, retry
 MBuild ==
   /\ pc[M] = "m_build"
-  /\ IF closed THEN Set(M, "m_exit") /\ UNCHANGED <<errState, faults>>
+  /\ IF closed THEN Set(M, "m_exit") /\ UNCHANGED <<errState, faults, kleft>>
      ELSE \/ /\ Fault /\ faults' = faults - 1 /\ errState' = "trans" /\ Set(M, "m_build")
           \/ /\ errState' = "none" /\ Set(M, "m_cl") /\ UNCHANGED faults
-  /\ UNCHANGED <<lock, commitLk, trLk, tr, closed, poisoned, frozen, mcmd, result, tries>>
+  /\ UNCHANGED <<lock, commitLk, trLk, tr, closed, poisoned, frozen, mcmd, result, tries, kleft>>
 MCommitLock == /\ pc[M] = "m_cl" /\ commitLk = "free" /\ commitLk' = M /\ Set(M, "m_commit")
-               /\ UNCHANGED <<lock, trLk, tr, closed, errState, faults, poisoned, frozen, mcmd, result, tries>>
+               /\ UNCHANGED <<lock, trLk, tr, closed, errState, faults, poisoned, frozen, mcmd, result, tries, kleft>>
 MCommit ==
   /\ pc[M] = "m_commit"
-  /\ IF closed THEN /\ commitLk' = "free" /\ Set(M, "m_exit") /\ UNCHANGED <<errState, faults, poisoned, frozen>>
+  /\ IF closed THEN /\ commitLk' = "free" /\ Set(M, "m_exit") /\ UNCHANGED <<errState, faults, poisoned, frozen, kleft>>
      ELSE \/ /\ (Fault \/ poisoned)                                   \* manifest append/sync fails
              /\ faults' = IF poisoned THEN faults ELSE faults - 1
              /\ poisoned' = (poisoned \/ Sticky)
-             /\ errState' = "trans" /\ Set(M, "m_commit") /\ UNCHANGED <<commitLk, frozen>>
+             \* as coded (F9) compactionCommit keeps compCommitLk across its retries; repaired: one attempt per acquisition
+             /\ errState' = "trans" /\ UNCHANGED frozen
+             /\ IF FixF9 THEN commitLk' = "free" /\ Set(M, "m_cl") ELSE Set(M, "m_commit") /\ UNCHANGED commitLk
           \/ /\ ~poisoned /\ errState' = "none" /\ commitLk' = "free" /\ frozen' = FALSE
-             /\ Set(M, "m_ack") /\ UNCHANGED <<faults, poisoned>>
-  /\ UNCHANGED <<lock, trLk, tr, closed, mcmd, result, tries>>
+             /\ Set(M, "m_ack") /\ UNCHANGED <<faults, poisoned, kleft>>
+  /\ UNCHANGED <<lock, trLk, tr, closed, mcmd, result, tries, kleft>>
 MAck ==
   /\ pc[M] = "m_ack"
   /\ mcmd' = IF mcmd.ack /\ mcmd.from \in Clients THEN [mcmd EXCEPT !.st = "acked"] ELSE NoCmd
   /\ Set(M, "m_idle")
-  /\ UNCHANGED <<lock, commitLk, trLk, tr, closed, errState, faults, poisoned, frozen, result, tries>>
+  /\ UNCHANGED <<lock, commitLk, trLk, tr, closed, errState, faults, poisoned, frozen, result, tries, kleft>>
 MIdleClose == /\ pc[M] = "m_idle" /\ closed /\ Set(M, "m_done")
-              /\ UNCHANGED <<lock, commitLk, trLk, tr, closed, errState, faults, poisoned, frozen, mcmd, result, tries>>
+              /\ UNCHANGED <<lock, commitLk, trLk, tr, closed, errState, faults, poisoned, frozen, mcmd, result, tries, kleft>>
 MExit == /\ pc[M] = "m_exit"
          /\ mcmd' = IF mcmd.ack /\ mcmd.from \in Clients THEN [mcmd EXCEPT !.st = "ackclosed"] ELSE NoCmd
          /\ Set(M, "m_done")
-         /\ UNCHANGED <<lock, commitLk, trLk, tr, closed, errState, faults, poisoned, frozen, result, tries>>
+         /\ UNCHANGED <<lock, commitLk, trLk, tr, closed, errState, faults, poisoned, frozen, result, tries, kleft>>
+
+
+(* ---------------- table compaction goroutine: compactionCommit of a finished table compaction ---------------- *)
+KStart == /\ pc[K] = "k_idle" /\ kleft > 0 /\ ~closed /\ Set(K, "k_cl")
+          /\ UNCHANGED <<lock, commitLk, trLk, tr, closed, errState, faults, poisoned, frozen, mcmd, result, tries, kleft>>
+KLock == /\ pc[K] = "k_cl"
+         /\ IF closed THEN Set(K, "k_done") /\ UNCHANGED commitLk
+            ELSE commitLk = "free" /\ commitLk' = K /\ Set(K, "k_commit")
+         /\ UNCHANGED <<lock, trLk, tr, closed, errState, faults, poisoned, frozen, mcmd, result, tries, kleft>>
+KCommit ==
+  /\ pc[K] = "k_commit"
+  /\ IF closed THEN /\ commitLk' = "free" /\ Set(K, "k_done") /\ UNCHANGED <<errState, faults, poisoned, kleft>>
+     ELSE \/ /\ (Fault \/ poisoned)
+             /\ faults' = IF poisoned THEN faults ELSE faults - 1
+             /\ poisoned' = (poisoned \/ Sticky)
+             /\ errState' = "trans" /\ UNCHANGED kleft
+             /\ IF FixF9 THEN commitLk' = "free" /\ Set(K, "k_cl") ELSE Set(K, "k_commit") /\ UNCHANGED commitLk
+          \/ /\ ~poisoned /\ errState' = "none" /\ commitLk' = "free" /\ kleft' = kleft - 1
+             /\ Set(K, "k_idle") /\ UNCHANGED <<faults, poisoned>>
+  /\ UNCHANGED <<lock, trLk, tr, closed, frozen, mcmd, result, tries>>
+KIdleClose == /\ pc[K] = "k_idle" /\ closed /\ Set(K, "k_done")
+              /\ UNCHANGED <<lock, commitLk, trLk, tr, closed, errState, faults, poisoned, frozen, mcmd, result, tries, kleft>>
 
 (* ---------------- transaction user (explicit, or DB.Write with an oversized batch) ---------------- *)
 TStart ==
   /\ pc[T] = "t_start"
   /\ \/ /\ lock = "free" /\ lock' = T /\ Set(T, "t_pre") /\ UNCHANGED result
      \/ /\ closed /\ Set(T, "done") /\ Ret(T, "closed") /\ UNCHANGED lock
-  /\ UNCHANGED <<commitLk, trLk, tr, closed, errState, faults, poisoned, frozen, mcmd, tries>>
+  /\ UNCHANGED <<commitLk, trLk, tr, closed, errState, faults, poisoned, frozen, mcmd, tries, kleft>>
 \* pre-flush: if memdb non-empty: rotateMem(0,true) = wait pending, newMem, wait again
 TPre ==
   /\ pc[T] = "t_pre"
   /\ \/ Set(T, IF FixF3 THEN "t_s2" ELSE "t_open")   \* memdb empty: as coded no wait at all; repaired: wait for a pending flush
      \/ Set(T, "t_s1")
-  /\ UNCHANGED <<lock, commitLk, trLk, tr, closed, errState, faults, poisoned, frozen, mcmd, result, tries>>
+  /\ UNCHANGED <<lock, commitLk, trLk, tr, closed, errState, faults, poisoned, frozen, mcmd, result, tries, kleft>>
 TS1 == /\ pc[T] = "t_s1" /\ SendCmd(T, "t_w1", "t_prefail")
-       /\ UNCHANGED <<lock, commitLk, trLk, tr, closed, errState, faults, poisoned, frozen, tries>>
+       /\ UNCHANGED <<lock, commitLk, trLk, tr, closed, errState, faults, poisoned, frozen, tries, kleft>>
 TW1 == /\ pc[T] = "t_w1" /\ WaitAck(T, "t_nm", "t_prefail")
-       /\ UNCHANGED <<lock, commitLk, trLk, tr, closed, errState, faults, poisoned, frozen, result, tries>>
+       /\ UNCHANGED <<lock, commitLk, trLk, tr, closed, errState, faults, poisoned, frozen, result, tries, kleft>>
 TNM == /\ pc[T] = "t_nm" /\ ~frozen /\ frozen' = TRUE /\ Set(T, "t_s2")
-       /\ UNCHANGED <<lock, commitLk, trLk, tr, closed, errState, faults, poisoned, mcmd, result, tries>>
+       /\ UNCHANGED <<lock, commitLk, trLk, tr, closed, errState, faults, poisoned, mcmd, result, tries, kleft>>
 TS2 == /\ pc[T] = "t_s2" /\ SendCmd(T, "t_w2", "t_prefail")
-       /\ UNCHANGED <<lock, commitLk, trLk, tr, closed, errState, faults, poisoned, frozen, tries>>
+       /\ UNCHANGED <<lock, commitLk, trLk, tr, closed, errState, faults, poisoned, frozen, tries, kleft>>
 TW2 == /\ pc[T] = "t_w2" /\ WaitAck(T, "t_open", "t_prefail")
-       /\ UNCHANGED <<lock, commitLk, trLk, tr, closed, errState, faults, poisoned, frozen, result, tries>>
+       /\ UNCHANGED <<lock, commitLk, trLk, tr, closed, errState, faults, poisoned, frozen, result, tries, kleft>>
 TPreFail ==  \* OpenTransaction returns the error; as coded the write lock is NOT released
   /\ pc[T] = "t_prefail" /\ Set(T, "done") /\ Ret(T, "err")
   /\ lock' = IF FixF8 THEN "free" ELSE lock
-  /\ UNCHANGED <<commitLk, trLk, tr, closed, errState, faults, poisoned, frozen, mcmd, tries>>
+  /\ UNCHANGED <<commitLk, trLk, tr, closed, errState, faults, poisoned, frozen, mcmd, tries, kleft>>
 TOpen == /\ pc[T] = "t_open" /\ tr' = TRUE /\ Set(T, "t_commit0") /\ tries' = 0
-         /\ UNCHANGED <<lock, commitLk, trLk, closed, errState, faults, poisoned, frozen, mcmd, result>>
+         /\ UNCHANGED <<lock, commitLk, trLk, closed, errState, faults, poisoned, frozen, mcmd, result, kleft>>
 \* Commit: db.ok(), tr.lk.Lock(), [flush], compCommitLk.Lock(), up to 3 attempts
 TCommit0 ==
   /\ pc[T] = "t_commit0"
   /\ IF closed THEN Set(T, "t_after_err") /\ UNCHANGED trLk      \* ErrClosed from db.ok()
      ELSE trLk = "free" /\ trLk' = T /\ Set(T, "t_cl")
-  /\ UNCHANGED <<lock, commitLk, tr, closed, errState, faults, poisoned, frozen, mcmd, result, tries>>
+  /\ UNCHANGED <<lock, commitLk, tr, closed, errState, faults, poisoned, frozen, mcmd, result, tries, kleft>>
 TCommitLock == /\ pc[T] = "t_cl" /\ commitLk = "free" /\ commitLk' = T /\ Set(T, "t_try") /\ tries' = 0
-               /\ UNCHANGED <<lock, trLk, tr, closed, errState, faults, poisoned, frozen, mcmd, result>>
+               /\ UNCHANGED <<lock, trLk, tr, closed, errState, faults, poisoned, frozen, mcmd, result, kleft>>
 TTry ==
   /\ pc[T] = "t_try"
   /\ \/ /\ (Fault \/ poisoned) /\ tries < 3
@@ -161,42 +186,54 @@ TTry ==
                   /\ IF tries + 1 = 3
                        THEN /\ commitLk' = IF FixF6 THEN "free" ELSE commitLk   \* as coded: returns without Unlock
                             /\ trLk' = "free" /\ Set(T, "t_after_err")
-                       ELSE UNCHANGED <<commitLk, trLk>> /\ Set(T, "t_try")
-        /\ UNCHANGED <<lock, tr, result>>
+                       ELSE UNCHANGED <<commitLk, trLk, kleft>> /\ Set(T, "t_try")
+        /\ UNCHANGED <<lock, tr, result, kleft>>
      \/ /\ ~poisoned                                   \* success: setSeq, unlock, setDone
         /\ commitLk' = "free" /\ trLk' = "free" /\ tr' = FALSE /\ lock' = "free"
-        /\ Set(T, "done") /\ Ret(T, "ok") /\ UNCHANGED <<faults, poisoned, tries>>
-  /\ UNCHANGED <<closed, errState, frozen, mcmd>>
+        /\ Set(T, "done") /\ Ret(T, "ok") /\ UNCHANGED <<faults, poisoned, tries, kleft>>
+  /\ UNCHANGED <<closed, errState, frozen, mcmd, kleft>>
 \* after a failed Commit: DB.Write (large batch) just returns the error (as coded); an explicit user discards
 TAfterErr ==
   /\ pc[T] = "t_after_err"
   /\ IF LargeBatch /\ ~FixF7
-       THEN Set(T, "done") /\ Ret(T, "err") /\ UNCHANGED <<lock, tr, trLk>>
+       THEN Set(T, "done") /\ Ret(T, "err") /\ UNCHANGED <<lock, tr, trLk, kleft>>
        ELSE /\ trLk = "free"                           \* Discard: tr.lk.Lock(); if !tr.closed { discard; setDone }
-            /\ IF tr THEN tr' = FALSE /\ lock' = "free" ELSE UNCHANGED <<tr, lock>>
+            /\ IF tr THEN tr' = FALSE /\ lock' = "free" ELSE UNCHANGED <<tr, lock, kleft>>
             /\ Set(T, "done") /\ Ret(T, "err") /\ UNCHANGED trLk
-  /\ UNCHANGED <<commitLk, closed, errState, faults, poisoned, frozen, mcmd, tries>>
+  /\ UNCHANGED <<commitLk, closed, errState, faults, poisoned, frozen, mcmd, tries, kleft>>
 
 (* ---------------- Close ---------------- *)
 CBegin == /\ pc[C] = "c_idle" /\ closed' = TRUE /\ Set(C, "c_tr")
-          /\ UNCHANGED <<lock, commitLk, trLk, tr, errState, faults, poisoned, frozen, mcmd, result, tries>>
+          /\ UNCHANGED <<lock, commitLk, trLk, tr, errState, faults, poisoned, frozen, mcmd, result, tries, kleft>>
 CDiscardTx ==  \* if db.tr != nil { db.tr.Discard() }  -- needs tr.lk
   /\ pc[C] = "c_tr"
   /\ IF tr THEN /\ trLk = "free" /\ tr' = FALSE /\ lock' = "free"   \* setDone releases the write lock
                 /\ Set(C, "c_lock")
-          ELSE Set(C, "c_lock") /\ UNCHANGED <<tr, lock>>
-  /\ UNCHANGED <<commitLk, trLk, closed, errState, faults, poisoned, frozen, mcmd, result, tries>>
+          ELSE Set(C, "c_lock") /\ UNCHANGED <<tr, lock, kleft>>
+  /\ UNCHANGED <<commitLk, trLk, closed, errState, faults, poisoned, frozen, mcmd, result, tries, kleft>>
 CLock == /\ pc[C] = "c_lock" /\ lock = "free" /\ lock' = C /\ Set(C, "c_wait")
-         /\ UNCHANGED <<commitLk, trLk, tr, closed, errState, faults, poisoned, frozen, mcmd, result, tries>>
-CWait == /\ pc[C] = "c_wait" /\ pc[M] = "m_done" /\ Set(C, "c_done")
-         /\ UNCHANGED <<lock, commitLk, trLk, tr, closed, errState, faults, poisoned, frozen, mcmd, result, tries>>
+         /\ UNCHANGED <<commitLk, trLk, tr, closed, errState, faults, poisoned, frozen, mcmd, result, tries, kleft>>
+CWait == /\ pc[C] = "c_wait" /\ pc[M] = "m_done" /\ pc[K] = "k_done" /\ Set(C, "c_done")
+         /\ UNCHANGED <<lock, commitLk, trLk, tr, closed, errState, faults, poisoned, frozen, mcmd, result, tries, kleft>>
 
 Next == \/ \E w \in Writers : WStart(w) \/ WFlush(w) \/ WRotSend(w) \/ WRotWait(w) \/ WNewMem(w) \/ WApply(w) \/ WFail(w)
         \/ MRun \/ MBuild \/ MCommitLock \/ MCommit \/ MAck \/ MIdleClose \/ MExit
         \/ TStart \/ TPre \/ TS1 \/ TW1 \/ TNM \/ TS2 \/ TW2 \/ TPreFail \/ TOpen
         \/ TCommit0 \/ TCommitLock \/ TTry \/ TAfterErr
         \/ CBegin \/ CDiscardTx \/ CLock \/ CWait
-Spec == Init /\ [][Next]_vars /\ WF_vars(Next)
+        \/ KStart \/ KLock \/ KCommit \/ KIdleClose
+\* With a sticky manifest error the compaction goroutines retry for ever, so behaviours are no longer all finite and
+\* fairness matters: every process keeps running (weak fairness per process), and lock acquisitions are strongly fair
+\* (writeLockC is a channel: blocked senders are served in order; sync.Mutex hands over to a starving waiter).
+WNext(w) == WStart(w) \/ WFlush(w) \/ WRotSend(w) \/ WRotWait(w) \/ WNewMem(w) \/ WApply(w) \/ WFail(w)
+MNext == MRun \/ MBuild \/ MCommitLock \/ MCommit \/ MAck \/ MIdleClose \/ MExit
+TNext == TStart \/ TPre \/ TS1 \/ TW1 \/ TNM \/ TS2 \/ TW2 \/ TPreFail \/ TOpen \/ TCommit0 \/ TCommitLock \/ TTry \/ TAfterErr
+CNext == CBegin \/ CDiscardTx \/ CLock \/ CWait
+KNext == KStart \/ KLock \/ KCommit \/ KIdleClose
+Spec == /\ Init /\ [][Next]_vars
+        /\ \A w \in Writers : WF_vars(WNext(w)) /\ SF_vars(WStart(w))
+        /\ WF_vars(MNext) /\ WF_vars(TNext) /\ WF_vars(CNext) /\ WF_vars(KNext)
+        /\ SF_vars(TStart) /\ SF_vars(TCommitLock) /\ SF_vars(MCommitLock) /\ SF_vars(KLock) /\ SF_vars(CLock) /\ SF_vars(CDiscardTx)
 
 ClientsDone == \A p \in Clients : pc[p] = "done"
 CloseDone == pc[C] \in {"c_off", "c_idle", "c_done"}
